@@ -49,6 +49,7 @@ type Target struct {
 	Cls     string // decoder class of DER.tla
 	TagByte byte   // identifier octet this reader expects (patched into b[0]); 0 = leave
 	Run     func(in []byte) Obs
+	NoRe    bool // the library has no encoder for this type (no re-encoding to compare)
 }
 
 // Class orders of DERGen.tla (vs vectors).
@@ -200,92 +201,92 @@ var all = []Target{
 	// INTEGER
 	{"asn1.int", "int", "S64", 0, func(in []byte) Obs {
 		return asn1Run(in, "", func(x int) Value { return bigVal(big.NewInt(int64(x))) }, marshal[int])
-	}},
+	}, false},
 	{"asn1.int32", "int", "S32", 0, func(in []byte) Obs {
 		return asn1Run(in, "", func(x int32) Value { return bigVal(big.NewInt(int64(x))) }, marshal[int32])
-	}},
+	}, false},
 	{"asn1.int64", "int", "S64", 0, func(in []byte) Obs {
 		return asn1Run(in, "", func(x int64) Value { return bigVal(big.NewInt(x)) }, marshal[int64])
-	}},
+	}, false},
 	{"asn1.big", "int", "BIG", 0, func(in []byte) Obs {
 		return asn1Run(in, "", func(x *big.Int) Value { return bigVal(x) }, marshal[*big.Int])
-	}},
+	}, false},
 	{"asn1.enum", "int", "S32", 0x0a, func(in []byte) Obs {
 		return asn1Run(in, "", func(x asn1.Enumerated) Value { return bigVal(big.NewInt(int64(x))) }, marshal[asn1.Enumerated])
-	}},
+	}, false},
 	{"asn1.any-int", "int", "S64", 0, func(in []byte) Obs {
 		return anyRun(in, func(x int64) Value { return bigVal(big.NewInt(x)) }, marshal[int64])
-	}},
+	}, false},
 	{"asn1.int-tag2", "int", "S64", ctxTag2, func(in []byte) Obs {
 		return asn1Run(in, "tag:2", func(x int64) Value { return bigVal(big.NewInt(x)) },
 			func(x int64) ([]byte, error) { return asn1.MarshalWithParams(x, "tag:2") })
-	}},
-	{"cb.int8", "int", "S8", 0, cbInt[int8]},
-	{"cb.int16", "int", "S16", 0, cbInt[int16]},
-	{"cb.int32", "int", "S32", 0, cbInt[int32]},
-	{"cb.int64", "int", "S64", 0, cbInt[int64]},
-	{"cb.int", "int", "S64", 0, cbInt[int]},
-	{"cb.uint8", "int", "U8", 0, cbUint[uint8]},
-	{"cb.uint16", "int", "U16", 0, cbUint[uint16]},
-	{"cb.uint32", "int", "U32", 0, cbUint[uint32]},
-	{"cb.uint64", "int", "U64", 0, cbUint[uint64]},
-	{"cb.uint", "int", "U64", 0, cbUint[uint]},
+	}, false},
+	{"cb.int8", "int", "S8", 0, cbInt[int8], false},
+	{"cb.int16", "int", "S16", 0, cbInt[int16], false},
+	{"cb.int32", "int", "S32", 0, cbInt[int32], false},
+	{"cb.int64", "int", "S64", 0, cbInt[int64], false},
+	{"cb.int", "int", "S64", 0, cbInt[int], false},
+	{"cb.uint8", "int", "U8", 0, cbUint[uint8], false},
+	{"cb.uint16", "int", "U16", 0, cbUint[uint16], false},
+	{"cb.uint32", "int", "U32", 0, cbUint[uint32], false},
+	{"cb.uint64", "int", "U64", 0, cbUint[uint64], false},
+	{"cb.uint", "int", "U64", 0, cbUint[uint], false},
 	{"cb.big", "int", "BIG", 0, func(in []byte) Obs {
 		return cbRun(in, func(s *cryptobyte.String) (bool, Value, func(*cryptobyte.Builder)) {
 			x := new(big.Int)
 			ok := s.ReadASN1Integer(x)
 			return ok, bigVal(x), func(b *cryptobyte.Builder) { b.AddASN1BigInt(x) }
 		})
-	}},
+	}, false},
 	{"cb.int64tag", "int", "S64", ctxTag2, func(in []byte) Obs {
 		return cbRun(in, func(s *cryptobyte.String) (bool, Value, func(*cryptobyte.Builder)) {
 			var x int64
 			ok := s.ReadASN1Int64WithTag(&x, cbasn1.Tag(ctxTag2))
 			return ok, bigVal(big.NewInt(x)), func(b *cryptobyte.Builder) { b.AddASN1Int64WithTag(x, cbasn1.Tag(ctxTag2)) }
 		})
-	}},
+	}, false},
 	{"cb.enum", "int", "S64", 0x0a, func(in []byte) Obs {
 		return cbRun(in, func(s *cryptobyte.String) (bool, Value, func(*cryptobyte.Builder)) {
 			var x int
 			ok := s.ReadASN1Enum(&x)
 			return ok, bigVal(big.NewInt(int64(x))), func(b *cryptobyte.Builder) { b.AddASN1Enum(int64(x)) }
 		})
-	}},
+	}, false},
 
 	// BOOLEAN
 	{"asn1.bool", "bool", "", 0, func(in []byte) Obs {
 		return asn1Run(in, "", func(x bool) Value { return Value{Bv: x} }, marshal[bool])
-	}},
+	}, false},
 	{"cb.bool", "bool", "", 0, func(in []byte) Obs {
 		return cbRun(in, func(s *cryptobyte.String) (bool, Value, func(*cryptobyte.Builder)) {
 			var x bool
 			ok := s.ReadASN1Boolean(&x)
 			return ok, Value{Bv: x}, func(b *cryptobyte.Builder) { b.AddASN1Boolean(x) }
 		})
-	}},
+	}, false},
 
 	// OBJECT IDENTIFIER
 	{"asn1.oid", "oid", "A31", 0, func(in []byte) Obs {
 		return asn1Run(in, "", oidVal, marshal[asn1.ObjectIdentifier])
-	}},
+	}, false},
 	{"asn1.any-oid", "oid", "A31", 0, func(in []byte) Obs {
 		return anyRun(in, oidVal, marshal[asn1.ObjectIdentifier])
-	}},
+	}, false},
 	{"cb.oid", "oid", "A28", 0, func(in []byte) Obs {
 		return cbRun(in, func(s *cryptobyte.String) (bool, Value, func(*cryptobyte.Builder)) {
 			var x asn1.ObjectIdentifier
 			ok := s.ReadASN1ObjectIdentifier(&x)
 			return ok, oidVal(x), func(b *cryptobyte.Builder) { b.AddASN1ObjectIdentifier(x) }
 		})
-	}},
+	}, false},
 
 	// BIT STRING
 	{"asn1.bits", "bits", "BITS", 0, func(in []byte) Obs {
 		return asn1Run(in, "", func(x asn1.BitString) Value { return Value{Bytes: Ints(x.Bytes), Bl: x.BitLength} }, marshal[asn1.BitString])
-	}},
+	}, false},
 	{"asn1.any-bits", "bits", "BITS", 0, func(in []byte) Obs {
 		return anyRun(in, func(x asn1.BitString) Value { return Value{Bytes: Ints(x.Bytes), Bl: x.BitLength} }, marshal[asn1.BitString])
-	}},
+	}, false},
 	{"cb.bits", "bits", "BITS", 0, func(in []byte) Obs {
 		return cbRun(in, func(s *cryptobyte.String) (bool, Value, func(*cryptobyte.Builder)) {
 			var x asn1.BitString
@@ -294,14 +295,14 @@ var all = []Target{
 			// the library's own way to write an asn1.BitString.
 			return ok, Value{Bytes: Ints(x.Bytes), Bl: x.BitLength}, func(b *cryptobyte.Builder) { b.MarshalASN1(x) }
 		})
-	}},
+	}, false},
 	{"cb.bitsbytes", "bits", "BYTES", 0, func(in []byte) Obs {
 		return cbRun(in, func(s *cryptobyte.String) (bool, Value, func(*cryptobyte.Builder)) {
 			var x []byte
 			ok := s.ReadASN1BitStringAsBytes(&x)
 			return ok, Value{Bytes: Ints(x), Bl: 8 * len(x)}, func(b *cryptobyte.Builder) { b.AddASN1BitString(x) }
 		})
-	}},
+	}, false},
 
 	// GeneralizedTime
 	{"cb.gtime", "time", "", 0, func(in []byte) Obs {
@@ -310,13 +311,48 @@ var all = []Target{
 			ok := s.ReadASN1GeneralizedTime(&x)
 			return ok, timeVal(x), func(b *cryptobyte.Builder) { b.AddASN1GeneralizedTime(x) }
 		})
-	}},
+	}, false},
 	{"asn1.gtime", "time", "", 0, func(in []byte) Obs {
 		return asn1Run(in, "", timeVal, func(x time.Time) ([]byte, error) { return asn1.MarshalWithParams(x, "generalized") })
-	}},
+	}, false},
 	{"asn1.any-gtime", "time", "", 0, func(in []byte) Obs {
 		return anyRun(in, timeVal, func(x time.Time) ([]byte, error) { return asn1.MarshalWithParams(x, "generalized") })
-	}},
+	}, false},
+
+	{"asn1.gtime-p", "time", "", 0, func(in []byte) Obs {
+		return guard(func() Obs {
+			var x time.Time
+			rest, err := asn1.UnmarshalWithParams(in, &x, "generalized")
+			if err != nil {
+				return Obs{}
+			}
+			o := Obs{Acc: true, N: len(in) - len(rest), Val: timeVal(x)}
+			b, err := asn1.MarshalWithParams(x, "generalized")
+			if err != nil {
+				o.ReErr = err.Error()
+			}
+			o.Re = b
+			return o
+		})
+	}, false},
+
+	// UTCTime
+	{"asn1.utctime", "utc", "", 0, func(in []byte) Obs {
+		return asn1Run(in, "", timeVal, marshal[time.Time])
+	}, false},
+	{"asn1.utctime-p", "utc", "", 0, func(in []byte) Obs {
+		return asn1Run(in, "utc", timeVal, func(x time.Time) ([]byte, error) { return asn1.MarshalWithParams(x, "utc") })
+	}, false},
+	{"asn1.any-utctime", "utc", "", 0, func(in []byte) Obs {
+		return anyRun(in, timeVal, marshal[time.Time])
+	}, false},
+	{"cb.utctime", "utc", "", 0, func(in []byte) Obs {
+		return cbRun(in, func(s *cryptobyte.String) (bool, Value, func(*cryptobyte.Builder)) {
+			var x time.Time
+			ok := s.ReadASN1UTCTime(&x)
+			return ok, timeVal(x), func(b *cryptobyte.Builder) {} // cryptobyte has no UTCTime builder
+		})
+	}, true},
 
 	// tag / length header
 	{"asn1.raw", "hdr", "ANY31", 0, func(in []byte) Obs {
@@ -325,7 +361,7 @@ var all = []Target{
 		}, func(x asn1.RawValue) ([]byte, error) {
 			return asn1.Marshal(asn1.RawValue{Class: x.Class, Tag: x.Tag, IsCompound: x.IsCompound, Bytes: x.Bytes})
 		})
-	}},
+	}, false},
 	{"cb.any", "hdr", "LOW", 0, func(in []byte) Obs {
 		return cbRun(in, func(s *cryptobyte.String) (bool, Value, func(*cryptobyte.Builder)) {
 			var out cryptobyte.String
@@ -334,7 +370,7 @@ var all = []Target{
 			return ok, Value{Class: int(tag >> 6), Tag: int64(tag & 0x1f), Cons: tag&0x20 != 0, Clen: len(out)},
 				func(b *cryptobyte.Builder) { b.AddASN1(tag, func(c *cryptobyte.Builder) { c.AddBytes(out) }) }
 		})
-	}},
+	}, false},
 	{"cb.anyelem", "hdr", "LOW", 0, func(in []byte) Obs {
 		return cbRun(in, func(s *cryptobyte.String) (bool, Value, func(*cryptobyte.Builder)) {
 			var out cryptobyte.String
@@ -350,7 +386,7 @@ var all = []Target{
 			return ok, Value{Class: int(tag >> 6), Tag: int64(tag & 0x1f), Cons: tag&0x20 != 0, Clen: clen},
 				func(b *cryptobyte.Builder) { b.AddBytes(out) }
 		})
-	}},
+	}, false},
 }
 
 // Targets returns the real decoders bound to a kind.
